@@ -505,6 +505,44 @@ theorem wakeup_dispatches_all (sched : List Wake.Actor) :
 example : let w := Wake.run true true {} [.sender, .sender, .sender, .io, .io, .sender, .sender, .sender, .sender, .sender, .io, .io, .io, .io]
     w.accepted = 2 ∧ w.taken = 2 ∧ w.cmds = 0 ∧ w.evt = 0 ∧ w.io = .waiting ∧ w.crit = .free := by decide
 
+/-- **Commands accepted before the loop thread runs are not lost.** `start()` publishes the fresh eventfd and reopens the queue in ONE
+`_cmdMutex` section, registers the descriptor level-triggered (`EPOLLIN`, no `EPOLLET`) and only then creates the loop thread (facts
+`startPublishesEventFdWithQueueReopenUnderCmdMutex`, `startRegistersEventFdBeforeLoopThread`, `eventFdEpollMask` in `gen_conforms`).
+So `enqueue` never accepts a command without a valid descriptor to write to, and a write that precedes the registration — or the
+first `epoll_wait` — stays in the counter, which is exactly the model's `evt` (a level, not an edge): any number `k` of complete
+`enqueue` calls before the I/O thread's first step leave `evt = k`, and the I/O thread's first three steps dispatch all of them. -/
+theorem wakeup_commands_before_loop_start (k : Nat) :
+    let w := Wake.run Gen.TcpSession.enqueueWakeAfterPushUnderLock Gen.TcpSession.loopDrainBeforeProcess {}
+      ((List.replicate k [Wake.Actor.sender, .sender, .sender, .sender]).flatten)
+    w.io = .waiting ∧ w.crit = .free ∧ w.cmds = k ∧ w.evt = k ∧ w.accepted = k ∧
+    (Wake.run true true w [.io, .io, .io]).cmds = 0 ∧ (Wake.run true true w [.io, .io, .io]).taken = k := by
+  have key : ∀ (k : Nat) (w0 : Wake.W), w0.crit = .free →
+      let w := Wake.run true true w0 ((List.replicate k [Wake.Actor.sender, .sender, .sender, .sender]).flatten)
+      w.io = w0.io ∧ w.crit = .free ∧ w.cmds = w0.cmds + k ∧ w.evt = w0.evt + k ∧ w.accepted = w0.accepted + k := by
+    intro k
+    induction k with
+    | zero => intro w0 h; simp [Wake.run, h]
+    | succ n ih =>
+      intro w0 h
+      simp only [List.replicate_succ, List.flatten_cons, List.cons_append, List.nil_append, Wake.run]
+      have h1 := ih (Wake.step true true (Wake.step true true (Wake.step true true (Wake.step true true w0 .sender) .sender) .sender) .sender)
+        (by simp [Wake.step, h])
+      simp only at h1
+      refine ⟨by rw [h1.1]; simp [Wake.step, h], h1.2.1, ?_, ?_, ?_⟩
+      · rw [h1.2.2.1]; simp [Wake.step, h]; omega
+      · rw [h1.2.2.2.1]; simp [Wake.step, h]; omega
+      · rw [h1.2.2.2.2]; simp [Wake.step, h]; omega
+  intro w
+  have hk := key k {} rfl
+  simp only at hk
+  have hw : w = Wake.run true true {} ((List.replicate k [Wake.Actor.sender, .sender, .sender, .sender]).flatten) := rfl
+  have hd := wakeup_dispatches_all ((List.replicate k [Wake.Actor.sender, .sender, .sender, .sender]).flatten)
+  simp only at hd
+  rw [← hw] at hk
+  refine ⟨hk.1, hk.2.1, by simpa using hk.2.2.1, by simpa using hk.2.2.2.1, by simpa using hk.2.2.2.2, ?_⟩
+  have := hd hk.2.1
+  exact ⟨this.1, by rw [this.2]; simpa using hk.2.2.2.2⟩
+
 /-- **The order `drainEvt(); process();` is needed.** With `process(); drainEvt();` a command enqueued between the swap and the
 drain is wiped from the eventfd counter: the I/O thread sleeps, the command sits in the queue, nobody is in `enqueue`. -/
 theorem wakeup_needs_drain_before_process :
@@ -717,6 +755,16 @@ theorem gen_conforms :
       "queue-closed", "residual-swap"] ∧
     Gen.TcpSession.shutdownResidualUnderCmdMutex = true ∧ Gen.TcpSession.shutdownDrainDispatchCalls = 0 := by
   decide
+
+/-- **Source shapes of `start()` the wake-up model relies on** (regenerated): the fresh eventfd is published in `_eventFd` and the
+queue reopened (`_cmdsClosed = false`) in ONE `_cmdMutex` section — `enqueue` never accepts a command without a descriptor to wake
+the loop with —, the descriptor is published before it is registered, registered exactly once, level-triggered (`EPOLLIN`), and
+before the loop thread exists. -/
+theorem gen_conforms_start :
+    Gen.TcpSession.startPublishesEventFdWithQueueReopenUnderCmdMutex = true ∧
+    Gen.TcpSession.startPublishesEventFdBeforeRegistration = true ∧
+    Gen.TcpSession.startRegistersEventFdBeforeLoopThread = true ∧ Gen.TcpSession.eventFdRegistrations = 1 ∧
+    Gen.TcpSession.eventFdEpollMask = "EPOLLIN" := by decide
 
 /-! ## Observations (true of the code as it is; none contradicts the statement of C01) -/
 
